@@ -10,7 +10,12 @@ use serde_json::json;
 use std::time::Duration;
 
 fn inbound(qos: u8, pkid: u16, tag: u32) -> Pk {
-    Pk::Publish { qos, pkid, tag, dup: false, retain: false, alias: None, topic_empty: false }
+    Pk::Publish { qos, pkid, tag, dup: false, retain: false, alias: None, topic_empty: false, topic2: false }
+}
+
+/// inbound publish that carries a topic alias (MQTT 5): `topic` 0 = empty, 1 = in/x, 2 = in/y
+fn inbound_alias(qos: u8, pkid: u16, tag: u32, alias: u16, topic: u8) -> Pk {
+    Pk::Publish { qos, pkid, tag, dup: false, retain: false, alias: Some(alias), topic_empty: topic == 0, topic2: topic == 2 }
 }
 
 pub fn enabled<P: Proto>(w: &ClientWorld<P>, cfg: &Cfg) -> Vec<(CAct, u8)> {
@@ -79,6 +84,16 @@ pub fn enabled<P: Proto>(w: &ClientWorld<P>, cfg: &Cfg) -> Vec<(CAct, u8)> {
                                 v.push((CAct::B(inbound(q, if q == 0 { 0 } else { id }, 100 + q as u32 * 10 + id as u32)), 0));
                             }
                         }
+                        if cfg.v5 {
+                            // topic aliases: establish 1 -> in/x, re-map 1 -> in/y, use it with
+                            // an empty topic, use alias 2 that is never established
+                            v.push((CAct::B(inbound_alias(0, 0, 120, 1, 1)), 0));
+                            v.push((CAct::B(inbound_alias(1, 1, 121, 1, 2)), 0));
+                            v.push((CAct::B(inbound_alias(0, 0, 122, 1, 0)), 0));
+                            v.push((CAct::B(inbound_alias(1, 2, 123, 1, 0)), 0));
+                            v.push((CAct::B(inbound_alias(0, 0, 124, 2, 0)), 0));
+                            v.push((CAct::B(inbound_alias(1, 2, 125, 2, 0)), 0));
+                        }
                         v.push((CAct::B(Pk::PubRel(1, 0)), 0));
                         v.push((CAct::B(Pk::PubRel(2, 0)), 0));
                         v.push((CAct::B(Pk::PingResp), 0));
@@ -102,6 +117,9 @@ pub fn enabled<P: Proto>(w: &ClientWorld<P>, cfg: &Cfg) -> Vec<(CAct, u8)> {
                         }
                         v.push((CAct::B(inbound(1, 65535, 400)), 0));
                         v.push((CAct::B(inbound(2, lim + 1, 401)), 0));
+                        // the largest packet id in an inbound QoS 2 flow
+                        v.push((CAct::B(inbound(2, 65535, 402)), 0));
+                        v.push((CAct::B(Pk::PubRel(65535, 0)), 0));
                     }
                     2 => {
                         // read batches around the 10-packet limit, and a half-written packet
@@ -158,9 +176,17 @@ pub fn enabled<P: Proto>(w: &ClientWorld<P>, cfg: &Cfg) -> Vec<(CAct, u8)> {
                     v.push((CAct::ReconnectSilent, 0));
                     v.push((CAct::ReconnectRefused, 0));
                 }
-                if connected && !healthy {
+                // waiting for the CONNACK of a silent broker: time passes, or it answers late
+                let awaiting = connected && w.mon.connect_seen_unanswered && w.mon.errors().is_empty();
+                if awaiting {
                     v.push((CAct::T(1000), 0));
+                    v.push((CAct::T(500), 0));
                     v.push((CAct::B(Pk::ConnAck { sp: false, code: 0, recv_max: None }), 0));
+                }
+                if connected && healthy && !w.mon.connect_seen_unanswered && w.mon.connections() > 0 {
+                    // established after all: keep-alive applies from here on
+                    v.push((CAct::T(1000), 0));
+                    v.push((CAct::B(Pk::PingResp), 0));
                 }
             }
         }
